@@ -6,6 +6,7 @@
 
 mod core;
 mod enc;
+mod explore;
 mod guard;
 mod props;
 mod s3sim;
@@ -22,6 +23,7 @@ type ReplayFn = fn(&'static Ctx, &Value);
 
 fn table() -> Vec<(&'static str, RunFn, ReplayFn)> {
     vec![
+        ("C17", props::c17::run as RunFn, props::c17::replay as ReplayFn),
         ("C15", props::c15::run as RunFn, props::c15::replay as ReplayFn),
         ("C19", props::c19::run as RunFn, props::c19::replay as ReplayFn),
         ("C14", props::c14::run as RunFn, props::c14::replay as ReplayFn),
